@@ -463,8 +463,8 @@ def pipeline_login(w):
         sub["jobs"] = st["jobs"]
         sub["groups"] = [st["group"]]
         sub["mode"] = st.get("mode", "hpc")
-        sub["hooks"] = {}
-        key = "pipe-cfg-%d-%s" % (k, json.dumps([st, scen.get("with_groups")], sort_keys=True, default=str))
+        sub["hooks"] = dict(scen.get("stage_hooks") or {})
+        key = "pipe-cfg-%d-%s" % (k, json.dumps([st, scen.get("with_groups"), scen.get("stage_hooks")], sort_keys=True, default=str))
         text = _cfg_cache.get(key)
         g = st["group"]
         local = st.get("mode") == "local"
